@@ -721,6 +721,8 @@ where
     async fn handle_event(
         &mut self, permit: Permit<'_, TransportMsg>, event: GlobalEvt,
     ) -> Result<(), ChMuxError<TransportSinkError, TransportStreamError>> {
+        #[cfg(remoc_verif)]
+        let event = verif_hooks::unstage_event(event);
         let send_msg = |permit: Permit<'_, TransportMsg>, msg: MultiplexMsg| {
             tracing::trace!(op="send", msg=?msg);
             permit.send(TransportMsg::new(msg))
@@ -871,6 +873,8 @@ where
     async fn handle_received_msg(
         &mut self, received_msg: TransportMsg,
     ) -> Result<(), ChMuxError<TransportSinkError, TransportStreamError>> {
+        #[cfg(remoc_verif)]
+        let received_msg = verif_hooks::unstage_msg(received_msg);
         let TransportMsg { msg, data } = received_msg;
 
         match msg {
@@ -1206,6 +1210,37 @@ pub mod verif_hooks {
     use super::*;
     use crate::chmux::credit::verif_hooks as credit_hooks;
 
+    // ---- argument staging ----------------------------------------------------
+    //
+    // Kani/CBMC cannot constant-fold reads of a coroutine argument that has drop glue
+    // (the event / message enum then looks symbolic and every match arm is explored).
+    // The hooks therefore park the real argument in a static and hand the coroutine a
+    // unit-variant placeholder; the first statement of the handler (cfg(remoc_verif)
+    // only) swaps the parked value back in.
+
+    static STAGED_EVT: std::sync::Mutex<Option<GlobalEvt>> = std::sync::Mutex::new(None);
+    static STAGED_MSG: std::sync::Mutex<Option<TransportMsg>> = std::sync::Mutex::new(None);
+
+    pub(super) fn unstage_event(placeholder: GlobalEvt) -> GlobalEvt {
+        match STAGED_EVT.lock().unwrap().take() {
+            Some(evt) => {
+                std::mem::forget(placeholder);
+                evt
+            }
+            None => placeholder,
+        }
+    }
+
+    pub(super) fn unstage_msg(placeholder: TransportMsg) -> TransportMsg {
+        match STAGED_MSG.lock().unwrap().take() {
+            Some(msg) => {
+                std::mem::forget(placeholder);
+                msg
+            }
+            None => placeholder,
+        }
+    }
+
     // ---- port events -------------------------------------------------------
 
     /// Nameable alias of the crate-private port event type.
@@ -1390,6 +1425,49 @@ pub mod verif_hooks {
         mux.remote_listener_dropped.clone()
     }
 
+    /// What a local sender/receiver pair would hold for a port entered by `mux_insert_connected`.
+    pub struct PortEnds {
+        pub credit_user: crate::chmux::credit::CreditUser,
+        pub credit_returner: crate::chmux::credit::ChannelCreditReturner,
+        pub rx_data: mpsc::UnboundedReceiver<PortReceiveMsg>,
+        pub hangup_recved: std::sync::Weak<AtomicBool>,
+        pub hangup_notify: std::sync::Weak<std::sync::Mutex<Option<Vec<oneshot::Sender<()>>>>>,
+    }
+
+    /// Enters `local_port` as `Connected` exactly as `create_port` does, but without building the
+    /// user-facing `Sender`/`Receiver` objects (and their helper tasks).
+    pub fn mux_insert_connected<Si, St>(mux: &mut ChMux<Si, St>, local_port: PortNumber, remote_port: u32) -> PortEnds {
+        let (sender_credit_provider, credit_user) = credit_send_pair(mux.remote_cfg.port_receive_buffer);
+        let (receiver_tx_data, rx_data) = mpsc::unbounded_channel();
+        let (receiver_credit_monitor, credit_returner) = credit_monitor_pair(mux.local_cfg.receive_buffer);
+        let hangup_notify = Arc::new(std::sync::Mutex::new(Some(Vec::new())));
+        let hangup_recved = Arc::new(AtomicBool::new(false));
+        let ends = PortEnds {
+            credit_user,
+            credit_returner,
+            rx_data,
+            hangup_recved: Arc::downgrade(&hangup_recved),
+            hangup_notify: Arc::downgrade(&hangup_notify),
+        };
+        let old = mux.ports.insert(
+            local_port,
+            PortState::Connected {
+                remote_port,
+                sender_credit_provider,
+                receiver_tx_data: Some(receiver_tx_data),
+                receiver_credit_monitor,
+                remote_receiver_closed_notify: hangup_notify,
+                remote_receiver_closed: hangup_recved,
+                receiver_closed: false,
+                receiver_dropped: false,
+                sender_dropped: false,
+                remote_receiver_dropped: false,
+            },
+        );
+        assert!(old.is_none());
+        ends
+    }
+
     pub struct MuxFlags {
         pub all_clients_dropped: bool,
         pub remote_client_dropped: bool,
@@ -1445,6 +1523,7 @@ pub mod verif_hooks {
         response_rx
     }
 
+    #[derive(Clone, Copy)]
     pub struct PortFlags {
         pub remote_sender_finished: bool,
         pub receiver_closed: bool,
@@ -1579,13 +1658,15 @@ pub mod verif_hooks {
             &'a mut self, queue: &'a VSendQueue, event: VGlobalEvt,
         ) -> impl Future<Output = Result<(), ChMuxError<TransportSinkError, TransportStreamError>>> + 'a {
             let permit = queue.tx.try_reserve().expect("verif hook: transport send queue must have room");
-            self.handle_event(permit, event.0)
+            *STAGED_EVT.lock().unwrap() = Some(event.0);
+            self.handle_event(permit, GlobalEvt::SendGoodbye)
         }
 
         pub fn verif_handle_received_msg<'a>(
             &'a mut self, msg: MultiplexMsg, data: Option<Bytes>,
         ) -> impl Future<Output = Result<(), ChMuxError<TransportSinkError, TransportStreamError>>> + 'a {
-            self.handle_received_msg(TransportMsg { msg, data })
+            *STAGED_MSG.lock().unwrap() = Some(TransportMsg { msg, data });
+            self.handle_received_msg(TransportMsg { msg: MultiplexMsg::Ping, data: None })
         }
     }
 }
